@@ -10,7 +10,8 @@ import os
 from sim.core import canon_json, h64
 
 PID = "C19"
-RULE = ("seeded histories of add/remove/exists over call paths of length 1..4 from a 2..3 call-site alphabet "
+RULE = ("seeded histories of 3..70 add/remove/exists/persist ops over call paths of length 1..4 from a 2..3 call-site alphabet, "
+        "and in a quarter of the runs beyond these bounds (5..7 call sites, paths up to length 6, 8 in the thorough tier) "
         "(plus call sites with a negative id and non-CallPath arguments); generator is biased by the reference "
         "model towards prefixes/extensions/duplicates of stored and of previously removed paths.  A run is "
         "non-trivial if it hit at least one reach probe (prefix eviction, prefix rejection, add after remove, ...); "
@@ -27,11 +28,11 @@ PROBES = ["invivo_persisted_readbacks_checked", "invivo_history_run_ok", "invivo
 # the same check again, smaller, in interpreters started with assertions stripped (python -O / PYTHONOPTIMIZE=1)
 ENV_VARIANTS = [{"name": "python-O", "env": {"PYTHONOPTIMIZE": "1"}, "runs": {'quick': 4000, 'thorough': 40000}}]
 TIERS = {
-    "quick": {"runs": 40000, "budget_s": 180, "chunk": 500, "selftest": 200, "per_run_timeout": 300},
+    "quick": {"runs": 30000, "budget_s": 180, "chunk": 500, "selftest": 200, "per_run_timeout": 300},
     "thorough": {"runs": 0, "budget_s": 900, "chunk": 2500, "selftest": 1000, "per_run_timeout": 300},
 }
 
-SITES = [(1, 10, 2), (2, 20, 3), (3, 30, 1)]
+SITES = [(1, 10, 2), (2, 20, 3), (3, 30, 1), (4, 40, 5), (5, 50, 4), (1, 11, 3), (2, 21, 1)]
 NEG_SITES = [(-1, 10, 2), (2, -20, 3), (3, 30, -1)]
 BIG = 9_300_000_000
 
@@ -103,7 +104,7 @@ def _t(p):
 
 # ----------------------------------------------------------------------------- generator
 
-P_INVIVO = {"quick": 0.0012, "thorough": 0.0012}
+P_INVIVO = {"quick": 0.0016, "thorough": 0.0014}
 
 
 def gen_knobs(rng, tier):
@@ -111,9 +112,11 @@ def gen_knobs(rng, tier):
         return {"population": "invivo"}
     return {
         "population": "default",
-        "n_sites": rng.choice([2, 3, 3]),
-        "max_len": rng.choice([2, 3, 4, 4]),
-        "n_ops": rng.randint(3, 25),
+        # beyond the property's own bounds (3 call sites, length 4) in a quarter of the runs: wide nodes (a method with many
+        # call statements), long paths, long histories; more of them in the thorough tier
+        "n_sites": rng.choice([2, 3, 3, 3, 5, 7] if tier != "thorough" else [2, 3, 3, 5, 7, 7]),
+        "max_len": rng.choice([2, 3, 4, 4, 4, 6] if tier != "thorough" else [2, 3, 4, 4, 6, 8]),
+        "n_ops": rng.randint(3, 25) if rng.random() < (0.92 if tier != "thorough" else 0.6) else rng.randint(26, 70),
         "w_add": rng.choice([3, 5, 8]),
         "w_remove": rng.choice([1, 2, 4]),
         "w_exists": rng.choice([0, 1, 2]),
